@@ -116,7 +116,7 @@ def _shape_code():
         def comp(expr):
             tree = ast.fix_missing_locations(Lazy().visit(ast.parse(expr, mode="eval")))
             return compile(tree, "<shape>", "eval")
-        _SHAPE_CODE = ([(l, comp(e)) for l, e in shapes.SHAPE], comp(shapes.LIST_SHAPE))
+        _SHAPE_CODE = ([(l, comp(e)) for l, e in shapes.SHAPE], [(l, comp(e)) for l, e in shapes.LIST_SHAPES])
     return _SHAPE_CODE
 
 
@@ -141,11 +141,13 @@ def operation_shape(sched):
                 break
         if len(out) >= 3:
             break
-    try:
-        if not eval(per_list, dict(env, schedule=ops)):
-            out.append(("list_does_not_end_with_a_write", "last operation %s" % ops[-1].type))
-    except Exception as exc:
-        out.append(("list_does_not_end_with_a_write", type(exc).__name__))
+    env["forall"] = lambda lo, hi, f: all(f(k) for k in range(lo, hi))
+    for label, code in per_list:
+        try:
+            if not eval(code, dict(env, schedule=ops)):
+                out.append((label, "types %s ..." % [o.type for o in ops[:6]]))
+        except Exception as exc:
+            out.append((label, type(exc).__name__))
     return out
 
 
